@@ -9,14 +9,30 @@ from ..py_frontend import (dotted, call_name, calls_under, walk, param_names, bi
                            src, pycfg)
 
 
+def _registration_function(ctx, mod):
+    """the function that partitions the fields and registers the class (dataclass() itself, or a
+    helper it delegates to)"""
+    cands = [(q, f) for q, f in mod.funcs.items() if '.' not in q and
+             any(isinstance(s, ast.For) and 'dataclasses.fields(cls)' in src(s.iter) for s in f.body)]
+    ctx.require(len(cands) == 1, 'optree.dataclasses: %d functions partition dataclasses.fields(cls)'
+                % len(cands))
+    q, f = cands[0]
+    if q != 'dataclass':
+        dc = mod.func('dataclass')
+        ctx.require(any(call_name(c) == q and c.args and is_name(c.args[0], 'cls')
+                        for c in calls_under(dc)),
+                    'dataclass() does not delegate to %s(cls, ...)' % q)
+    return f, q
+
+
 # ---------------------------------------------------------------------------------------------
 @rule('DC1', floor=6, title='dataclass fields are partitioned by the pytree_node flag; one name tuple feeds children, entries and unflatten')
 def dc1(ctx):
     pkg = ctx.py()
     mod = pkg.mod('optree.dataclasses')
-    fn = mod.func('dataclass')
+    fn, fq = _registration_function(ctx, mod)
     loop = [s for s in fn.body if isinstance(s, ast.For) and 'dataclasses.fields(cls)' in src(s.iter)]
-    ctx.require(len(loop) == 1, 'dataclass(): partition loop over dataclasses.fields(cls) not found')
+    ctx.require(len(loop) == 1, 'partition loop over dataclasses.fields(cls) not found')
     lp = loop[0]
     fvar = lp.target.id
     top = lp.body[0] if lp.body else None
@@ -54,8 +70,8 @@ def dc1(ctx):
               'metadata fields are exactly the non-node fields with init=True',
               'metadata partition is not `elif f.init: metadata_fields[...]`', mod.loc(lp))
     # the same name tuple everywhere
-    fl = mod.funcs.get('dataclass.flatten_func')
-    un = mod.funcs.get('dataclass.unflatten_func')
+    fl = mod.funcs.get(fq + '.flatten_func')
+    un = mod.funcs.get(fq + '.unflatten_func')
     ctx.require(fl is not None and un is not None, 'generated flatten/unflatten functions not found')
     names_def = [s for s in fn.body if isinstance(s, ast.Assign) and is_name(s.targets[0], 'children_field_names')]
     ok = len(names_def) == 1 and src(names_def[0].value) == 'tuple(children_fields)'
@@ -156,7 +172,8 @@ def dc3(ctx):
     mod = pkg.mod('optree.dataclasses')
     fn = mod.func('dataclass')
     cfg = pycfg(fn)
-    reg = [c for c in calls_under(fn) if call_name(c) == 'register_pytree_node']
+    rfn, rq = _registration_function(ctx, mod)
+    reg = [c for c in calls_under(rfn) if call_name(c) == 'register_pytree_node']
     std = [c for c in calls_under(fn) if call_name(c) == 'dataclasses.dataclass']
     ctx.require(reg and std, 'dataclass(): register / dataclasses.dataclass calls not found')
     twice = [s for s in walk(fn) if isinstance(s, ast.If) and src(s.test) == '_FIELDS in cls.__dict__'
@@ -166,7 +183,7 @@ def dc3(ctx):
               'decorating a class twice raises TypeError before dataclasses.dataclass runs',
               'the decorated-twice rejection is missing or does not dominate dataclasses.dataclass',
               mod.loc(fn))
-    mark = [s for s in walk(fn) if isinstance(s, ast.Expr) and call_name(s.value) == 'setattr'
+    mark = [s for s in walk(rfn) if isinstance(s, ast.Expr) and call_name(s.value) == 'setattr'
             and len(s.value.args) == 3 and src(s.value.args[1]) == '_FIELDS']
     ctx.check('dataclass/marker-set', bool(mark),
               'the class is marked with _FIELDS (what the twice-check looks for)',
@@ -234,6 +251,35 @@ def dc4(ctx):
               mod.loc(new))
 
 
+def _reprocesses(mod, fn, param, depth=0, seen=None):
+    """does fn pass its parameter `param` to dataclasses.dataclass (directly or through module
+    functions) without an is-dataclass guard?  returns the offending call or None"""
+    seen = seen if seen is not None else set()
+    if id(fn) in seen or depth > 3:
+        return None
+    seen.add(id(fn))
+    for c in calls_under(fn):
+        cn = call_name(c)
+        if not c.args or not is_name(c.args[0], param):
+            continue
+        if cn == 'dataclasses.dataclass':
+            guarded = False
+            for s in walk(fn):
+                if isinstance(s, ast.If) and re.search(r'is_dataclass\(%s\)|__dataclass_fields__' % param, src(s.test)):
+                    if any(y is c for b in s.body + s.orelse for y in ast.walk(b)):
+                        guarded = True
+            if not guarded:
+                return c
+        elif cn in mod.funcs and '.' not in cn:
+            callee = mod.funcs[cn]
+            pos = [a.arg for a in callee.args.posonlyargs + callee.args.args]
+            if pos:
+                r = _reprocesses(mod, callee, pos[0], depth + 1, seen)
+                if r is not None:
+                    return r
+    return None
+
+
 @rule('DC5', floor=1, title='a class is processed by dataclasses.dataclass exactly once')
 def dc5(ctx):
     """Domain fact: re-applying dataclasses.dataclass to a class that already is a dataclass
@@ -242,44 +288,32 @@ def dc5(ctx):
     pkg = ctx.py()
     mod = pkg.mod('optree.dataclasses')
     mk = mod.func('make_dataclass')
-    dc = mod.func('dataclass')
     made = None
     for s in mk.body:
         if isinstance(s, ast.Assign) and call_name(s.value) == 'dataclasses.make_dataclass':
             made = s.targets[0].id
     ctx.require(made is not None, 'make_dataclass: result of dataclasses.make_dataclass not stored')
-    # where does the made class flow?
     flows = [c for c in calls_under(mk) if c.args and is_name(c.args[0], made)]
     ctx.require(flows, 'make_dataclass: the made class is not passed on')
     for c in flows:
         callee = call_name(c)
-        site = 'make_dataclass->%s' % callee
-        if callee == 'dataclass':
-            # does dataclass() re-run dataclasses.dataclass on its argument unconditionally?
-            cfg = pycfg(dc)
-            std = [x for x in calls_under(dc) if call_name(x) == 'dataclasses.dataclass' and
-                   x.args and is_name(x.args[0], 'cls')]
-            guarded = False
-            for x in std:
-                # guarded by an is-dataclass test on cls
-                for s in walk(dc):
-                    if isinstance(s, ast.If) and re.search(r'is_dataclass\(cls\)|__dataclass_fields__', src(s.test)):
-                        if any(y is x for b in s.body + s.orelse for y in ast.walk(b)):
-                            guarded = True
-            ok = not std or guarded
-            ctx.check(site, ok,
-                      'the class made by dataclasses.make_dataclass is not run through '
-                      'dataclasses.dataclass again',
-                      'make_dataclass hands the class made by dataclasses.make_dataclass to '
-                      'dataclass(), which runs dataclasses.dataclass on it a second time: the '
-                      'second pass rebuilds the fields from plain class attributes, so '
-                      '`pytree_node=False` / `init=False` given through field() are lost - every '
-                      'field becomes a child and unflatten passes non-init fields to __init__',
-                      mod.loc(c))
-        elif callee == 'dataclasses.dataclass':
-            ctx.bad(site, 'make_dataclass re-applies dataclasses.dataclass to the made class', mod.loc(c))
-        else:
-            ctx.ok(site, 'the made class flows to %s (no second dataclass pass)' % callee, mod.loc(c))
+        site = 'make_dataclass->made-class'
+        bad = None
+        if callee == 'dataclasses.dataclass':
+            bad = c
+        elif callee in mod.funcs:
+            cf = mod.funcs[callee]
+            pos = [a.arg for a in cf.args.posonlyargs + cf.args.args]
+            bad = _reprocesses(mod, cf, pos[0]) if pos else None
+        ctx.check(site, bad is None,
+                  'the class made by dataclasses.make_dataclass flows to %s, which never runs '
+                  'dataclasses.dataclass on it again' % callee,
+                  'make_dataclass hands the class made by dataclasses.make_dataclass to %s, which '
+                  'runs dataclasses.dataclass on it a second time (%s): the second pass rebuilds the '
+                  'fields from plain class attributes, so `pytree_node=False` / `init=False` given '
+                  'through field() are lost - every field becomes a child and unflatten passes '
+                  'non-init fields to __init__'
+                  % (callee, mod.loc(bad) if bad is not None else ''), mod.loc(c))
 
 
 # ---------------------------------------------------------------------------------------------
